@@ -1,4 +1,4 @@
-import TarsModel.Model.TraceKey
+import TarsModel.Proofs.TraceKey
 
 /-!
 # Trace-key parser (`tars/util/trace/trace.go`) — the C05 clause for `initType` / `SpanContext.Init`
@@ -16,37 +16,10 @@ statement, not a convention.
   looks the '.' up in the whole id, panics exactly when the first '.' lies behind the first '-'
   (`"-."`, `"f-a.b"`): the shape the totality theorem excludes.
 
-The small lemmas about `indexByte` are local to this file (nothing else uses them).
+Helper lemmas: `Proofs/TraceKey.lean`.
 -/
 namespace Tars.TraceKey
 open Tars
-
-private theorem indexByte_lt {c : Byte} : ∀ {s : Bytes} {p : Nat}, indexByte c s = some p → p < s.length := by
-  intro s
-  induction s with
-  | nil => intro p h; simp [indexByte] at h
-  | cons b bs ih =>
-    intro p h
-    simp only [indexByte] at h
-    split at h
-    · simp only [Option.some.injEq] at h; subst h; simp
-    · cases hq : indexByte c bs with
-      | none => simp [hq] at h
-      | some q =>
-        simp only [hq, Option.map_some, Option.some.injEq] at h
-        subst h
-        have := ih hq
-        simp; omega
-
-private theorem slice_prefix_ok (s : Bytes) {p : Nat} (h : p ≤ s.length) : slice s 0 p = .ok (s.take p) := by
-  unfold slice
-  rw [if_pos ⟨Nat.zero_le _, h⟩]
-  simp
-
-private theorem clampType_range (t : Int) : 0 ≤ clampType t ∧ clampType t ≤ 15 := by
-  unfold clampType
-  simp only [Consts.traceTypeMin, Consts.traceTypeMax]
-  split <;> omega
 
 /-- **`initType` is total.**  For every trace id and every configured default the parser of the
     current tree returns a value (no slice expression is out of range), the type lies in 0..15
